@@ -48,7 +48,7 @@ FAMILIES = {
 
 
 def gen_cases(tier, seed):
-    n = 120 if tier == "quick" else 2000
+    n = 120 if tier == "quick" else 1200
     return [{"seed": seed * 100333 + i, "nmax": 80 if tier == "quick" or i % 6 else 400, "big": tier == "thorough" and i % 6 == 0, "thorough": tier == "thorough",
              "_cost": 1 if tier == "quick" or i % 6 else 6} for i in range(n)]
 
